@@ -113,8 +113,9 @@ type c16Env struct {
 	// (then R-C16-5 must hold for that acceptance to be sound)
 	discRelied bool
 
-	anchors  map[string]*flow.Func // role-resolved functions (c16_roles.go)
-	writeChF *types.Var            // Client.writeCh
+	accessorMemo map[*types.Func]int
+	anchors      map[string]*flow.Func // role-resolved functions (c16_roles.go)
+	writeChF     *types.Var            // Client.writeCh
 
 	// supersession marks (c16_supersede.go)
 	markVals   map[*types.Var]constant.Value
@@ -137,7 +138,27 @@ func c16NewEnv(c *core.Ctx) *c16Env {
 	e.cleanFlagF = structField(c, mq, "SessionInfo", "CleanFlag")
 	e.httpSessF = structField(c, mq, "HTTPSessions", "Sessions")
 	e.httpIDF = structField(c, mq, "HTTPSession", "SessionID")
-	e.writeChF = structField(c, mq, "Client", "writeCh")
+	// Client.writeCh by role: the field of Client that is a channel of packets.ControlPacket
+	if n := namedType(c, mq, "Client"); n != nil {
+		if st, ok := n.Underlying().(*types.Struct); ok {
+			var byRole []*types.Var
+			for i := 0; i < st.NumFields(); i++ {
+				fld := st.Field(i)
+				if fld.Name() == "writeCh" {
+					e.writeChF = fld
+				}
+				if ch, ok := fld.Type().Underlying().(*types.Chan); ok && ch.Elem().String() == c16Packets+".ControlPacket" {
+					byRole = append(byRole, fld)
+				}
+			}
+			if e.writeChF == nil && len(byRole) == 1 {
+				e.writeChF = byRole[0]
+			}
+		}
+	}
+	if e.writeChF == nil {
+		c.Errorf("anchor: the outgoing packet channel of Client (field writeCh, or the single chan packets.ControlPacket field) not found")
+	}
 	for _, v := range []*types.Var{e.clientsF, e.brokerDoneF, e.sessionF, e.cidF, e.sessMapF, e.infoCIDF, e.topicsF, e.cleanFlagF, e.httpSessF, e.httpIDF} {
 		if v == nil {
 			return nil
@@ -633,10 +654,48 @@ func c16SetSession(e *c16Env) {
 	const evReuse, evNew, evOther, evClosed, evUnsub = "ev:c16reuse", "ev:c16new", "ev:c16other", "ev:c16closedPrev", "ev:c16unsubPrev"
 	// variables holding the previous session's topics: first result of prev.allSubscribes()
 	prevTopics := map[types.Object]bool{}
+	// topicsCall: a call on the previous session that enumerates its topic filters: allSubscribes, or
+	// an accessor of Session in front of it (first result []string, reaching allSubscribes / Topics)
+	topicsCall := func(call *ast.CallExpr) bool {
+		if !prevObjs[c16Obj(f, c16Recv(call))] {
+			return false
+		}
+		if c16Is(f, call, "(*"+mq+".Session).allSubscribes") {
+			return true
+		}
+		fo, ok := c16FnOK(f, call)
+		if !ok {
+			return false
+		}
+		d := e.decls[fo]
+		if d == nil || !c16RecvIs(d, "Session") {
+			return false
+		}
+		res := fo.Type().(*types.Signature).Results()
+		if res.Len() == 0 || res.At(0).Type().String() != "[]string" {
+			return false
+		}
+		return reachContains(funcOf(e.pkg, d), 1, func(h *flow.Func, n ast.Node) bool {
+			switch x := n.(type) {
+			case *ast.CallExpr:
+				return c16Is(h, x, "(*"+mq+".Session).allSubscribes")
+			case *ast.RangeStmt:
+				return c16Sel(h, x.X, e.topicsF)
+			}
+			return false
+		})
+	}
+	isPrevTopics := func(x ast.Expr) bool {
+		if prevTopics[c16Obj(f, x)] {
+			return true
+		}
+		call, ok := ast.Unparen(x).(*ast.CallExpr)
+		return ok && topicsCall(call)
+	}
 	for _, g := range helperBodies {
 		ast.Inspect(g.Body, func(n ast.Node) bool {
 			if as, ok := n.(*ast.AssignStmt); ok && len(as.Rhs) == 1 && len(as.Lhs) >= 1 {
-				if call, ok := ast.Unparen(as.Rhs[0]).(*ast.CallExpr); ok && c16Is(f, call, "(*"+mq+".Session).allSubscribes") && prevObjs[c16Obj(f, c16Recv(call))] {
+				if call, ok := ast.Unparen(as.Rhs[0]).(*ast.CallExpr); ok && topicsCall(call) {
 					if o := c16Obj(f, as.Lhs[0]); o != nil {
 						prevTopics[o] = true
 					}
@@ -784,7 +843,7 @@ func c16SetSession(e *c16Env) {
 			if c16Is(f, call, "(*"+mq+".Session).close") && prevObjs[c16Obj(f, c16Recv(call))] && provOf(st, c16Recv(call)) == flow.True {
 				st.Set(evClosed, flow.True)
 			}
-			if c16Is(f, call, "(*"+mq+".TopicManager).unsubscribe") && len(call.Args) == 2 && prevTopics[c16Obj(f, call.Args[0])] && (e.isCidReach(f, call.Args[1]) || cidParams[c16Obj(f, call.Args[1])]) {
+			if c16Is(f, call, "(*"+mq+".TopicManager).unsubscribe") && len(call.Args) == 2 && isPrevTopics(call.Args[0]) && (e.isCidReach(f, call.Args[1]) || cidParams[c16Obj(f, call.Args[1])]) {
 				st.Set(evUnsub, flow.True)
 			}
 		},
@@ -1200,8 +1259,93 @@ type c16Guards struct {
 const c16Locked, c16Fresh = "ev:c16brokerLocked", "ev:c16lookupFresh"
 
 func (e *c16Env) isClientsLookup(f *flow.Func, x ast.Expr) bool {
-	ix, ok := ast.Unparen(x).(*ast.IndexExpr)
-	return ok && c16Sel(f, ix.X, e.clientsF)
+	if ix, ok := ast.Unparen(x).(*ast.IndexExpr); ok {
+		return c16Sel(f, ix.X, e.clientsF)
+	}
+	// an accessor in front of the map that itself takes no lock: `b.lookupClientLocked(id)`
+	if call, ok := ast.Unparen(x).(*ast.CallExpr); ok {
+		return e.lookupKey(f, call) != nil
+	}
+	return false
+}
+
+// lookupKey returns the key of a read of Broker.clients: the index of `clients[k]`, or the argument
+// of a lock-free accessor whose body is nothing but that read (nil for anything else).
+func (e *c16Env) lookupKey(f *flow.Func, x ast.Expr) ast.Expr {
+	x = ast.Unparen(x)
+	if ix, ok := x.(*ast.IndexExpr); ok && c16Sel(f, ix.X, e.clientsF) {
+		return ix.Index
+	}
+	call, ok := x.(*ast.CallExpr)
+	if !ok {
+		return nil
+	}
+	fo, ok := c16FnOK(f, call)
+	if !ok {
+		return nil
+	}
+	idx, ok := e.lookupAccessor(fo)
+	if !ok || idx >= len(call.Args) {
+		return nil
+	}
+	return call.Args[idx]
+}
+
+// lookupAccessor: fo's body only reads Broker.clients[<parameter>] and returns the value (no lock,
+// no store, no delete, no other call); returns the index of the key parameter.
+func (e *c16Env) lookupAccessor(fo *types.Func) (int, bool) {
+	if r, ok := e.accessorMemo[fo]; ok {
+		return r, r >= 0
+	}
+	if e.accessorMemo == nil {
+		e.accessorMemo = map[*types.Func]int{}
+	}
+	e.accessorMemo[fo] = -1
+	d := e.decls[fo]
+	if d == nil || d.Type.Params == nil || d.Type.Results == nil {
+		return -1, false
+	}
+	res := fo.Type().(*types.Signature).Results()
+	if res.Len() == 0 || !c16PtrTo(res.At(0).Type(), "Client") {
+		return -1, false
+	}
+	g := funcOf(e.pkg, d)
+	params := map[types.Object]int{}
+	i := 0
+	for _, fld := range d.Type.Params.List {
+		for _, nm := range fld.Names {
+			params[g.Info.Defs[nm]] = i
+			i++
+		}
+	}
+	idx, reads, other := -1, 0, false
+	ast.Inspect(d.Body, func(n ast.Node) bool {
+		switch x := n.(type) {
+		case *ast.IndexExpr:
+			if c16Sel(g, x.X, e.clientsF) {
+				reads++
+				if pi, ok := params[c16Obj(g, x.Index)]; ok {
+					idx = pi
+				}
+			}
+		case *ast.CallExpr:
+			other = true
+		case *ast.AssignStmt:
+			for _, l := range x.Lhs {
+				if ix, ok := ast.Unparen(l).(*ast.IndexExpr); ok && c16Sel(g, ix.X, e.clientsF) {
+					other = true
+				}
+			}
+		case *ast.GoStmt, *ast.DeferStmt, *ast.ForStmt, *ast.RangeStmt:
+			other = true
+		}
+		return true
+	})
+	if reads == 1 && idx >= 0 && !other {
+		e.accessorMemo[fo] = idx
+		return idx, true
+	}
+	return -1, false
 }
 
 // isRegistryRead: Broker.clients[...] or Broker.getClient(...) (the latter takes and releases the
@@ -1485,6 +1629,10 @@ func (w *c16Walker) primitive(f *flow.Func, call *ast.CallExpr) string {
 	case calleeFull(f, call) == "builtin.delete" && len(call.Args) == 2 && c16Sel(f, call.Args[0], e.clientsF):
 		return c16OpUnreg
 	}
+	// an accessor whose whole body is that delete: the call IS the un-registration
+	if fo, ok := c16FnOK(f, call); ok && e.deleteAccessor(fo) {
+		return c16OpUnreg
+	}
 	return ""
 }
 
@@ -1754,4 +1902,22 @@ func c16SingleImpl(f *flow.Func, fo *types.Func) *types.Func {
 		return m
 	}
 	return nil
+}
+
+// deleteAccessor: the body of fo is nothing but `delete(Broker.clients, <parameter>)`.
+func (e *c16Env) deleteAccessor(fo *types.Func) bool {
+	d := e.decls[fo]
+	if d == nil || len(d.Body.List) != 1 {
+		return false
+	}
+	es, ok := d.Body.List[0].(*ast.ExprStmt)
+	if !ok {
+		return false
+	}
+	call, ok := es.X.(*ast.CallExpr)
+	if !ok {
+		return false
+	}
+	g := funcOf(e.pkg, d)
+	return calleeFull(g, call) == "builtin.delete" && len(call.Args) == 2 && c16Sel(g, call.Args[0], e.clientsF)
 }
